@@ -178,6 +178,40 @@ ssize_t writev(int fd, const struct iovec *iov, int cnt) {
     return syscall(SYS_writev, fd, iov, cnt);
 }
 
+ssize_t pread(int fd, void *buf, size_t n, off_t off) {
+    if (tracked_fd(fd)) {
+        if (const IoFault *f = next_fault("pread")) {
+            if (f->kind == "eintr") { fire(f); errno = EINTR; return -1; }
+            if (f->kind == "short_io" && n > 1) { fire(f); n = 1 + f->param % (n - 1); }
+        }
+    }
+    return syscall(SYS_pread64, fd, buf, n, off);
+}
+ssize_t pread64(int fd, void *buf, size_t n, off_t off) { return pread(fd, buf, n, off); }
+
+ssize_t pwrite(int fd, const void *buf, size_t n, off_t off) {
+    if (const std::string *p = tracked_fd(fd)) {
+        note_write(*p, "pwrite");
+        if (const IoFault *f = next_fault("pwrite")) {
+            if (f->kind == "eintr") { fire(f); errno = EINTR; return -1; }
+            if (f->kind == "short_io" && n > 1) { fire(f); n = 1 + f->param % (n - 1); }
+            if (f->kind == "write_error") { fire(f); errno = f->param ? EIO : ENOSPC; return -1; }
+        }
+    }
+    return syscall(SYS_pwrite64, fd, buf, n, off);
+}
+ssize_t pwrite64(int fd, const void *buf, size_t n, off_t off) { return pwrite(fd, buf, n, off); }
+
+ssize_t readv(int fd, const struct iovec *iov, int cnt) {
+    if (tracked_fd(fd)) {
+        if (const IoFault *f = next_fault("readv")) {
+            if (f->kind == "eintr") { fire(f); errno = EINTR; return -1; }
+            if (f->kind == "short_io" && cnt > 0 && iov[0].iov_len > 1) { fire(f); struct iovec e = iov[0]; e.iov_len = 1 + f->param % (e.iov_len - 1); return syscall(SYS_readv, fd, &e, 1); }
+        }
+    }
+    return syscall(SYS_readv, fd, iov, cnt);
+}
+
 void *mmap(void *addr, size_t len, int prot, int flags, int fd, off_t off) {
     if (fd >= 0) {
         if (const std::string *p = tracked_fd(fd)) {
